@@ -7,6 +7,7 @@ package interp
 
 import (
 	"fmt"
+	"os"
 	"go/types"
 	"reflect"
 	"regexp"
@@ -204,8 +205,12 @@ func (i *interpreter) conv(rv reflect.Value, depth int) value {
 		if rv.IsNil() {
 			return (*ssa.Function)(nil)
 		}
-		name := runtime.FuncForPC(rv.Pointer()).Name()
+		rf := runtime.FuncForPC(rv.Pointer())
+		name := rf.Name()
 		if fn := i.findFuncByRuntimeName(name); fn != nil {
+			return fn
+		}
+		if fn := i.findClosureByPos(name, rf, rv.Pointer()); fn != nil {
 			return fn
 		}
 		return nativeFunc{name}
@@ -274,6 +279,60 @@ func (i *interpreter) findFuncByRuntimeName(name string) *ssa.Function {
 		return nil
 	}
 	return i.prog.MethodValue(sel)
+}
+
+// findClosureByPos maps a native function literal to the SSA anonymous function declared at the same
+// file and line (only literals without captured variables: their bindings cannot be imported).
+func (i *interpreter) findClosureByPos(name string, rf *runtime.Func, pc uintptr) *ssa.Function {
+	if !strings.Contains(name, ".func") {
+		return nil
+	}
+	file, line := rf.FileLine(rf.Entry())
+	if os.Getenv("GSX_DEBUG_CLOSURE") != "" {
+		fmt.Fprintf(os.Stderr, "closure? %s %s:%d\n", name, file, line)
+	}
+	slash := strings.LastIndex(name, "/")
+	dot := strings.Index(name[slash+1:], ".")
+	if dot < 0 {
+		return nil
+	}
+	pkg := i.prog.ImportedPackage(name[:slash+1+dot])
+	if pkg == nil {
+		return nil
+	}
+	if i.anonByPos == nil {
+		i.anonByPos = map[string]*ssa.Function{}
+	}
+	key := fmt.Sprintf("%s:%d", file, line)
+	if fn, ok := i.anonByPos[key]; ok {
+		return fn
+	}
+	var found *ssa.Function
+	n := 0
+	var walk func(f *ssa.Function)
+	walk = func(f *ssa.Function) {
+		for _, a := range f.AnonFuncs {
+			p := i.prog.Fset.Position(a.Pos())
+			if p.Filename == file && p.Line == line {
+				found = a
+				n++
+			}
+			walk(a)
+		}
+	}
+	for _, m := range pkg.Members {
+		if f, ok := m.(*ssa.Function); ok {
+			walk(f)
+		}
+	}
+	if os.Getenv("GSX_DEBUG_CLOSURE") != "" {
+		fmt.Fprintf(os.Stderr, "closure %s at %s: %d candidates (pkg %s)\n", name, key, n, pkg.Pkg.Path())
+	}
+	if n != 1 || len(found.FreeVars) > 0 {
+		found = nil
+	}
+	i.anonByPos[key] = found
+	return found
 }
 
 // typeOf maps a reflect.Type to the go/types type of the loaded program.
